@@ -37,7 +37,7 @@ RULE = ("request bodies: member alphabet (jsonrpc/id/method/params absent or of 
 
 
 def run(ctx):
-    em = {"translated": 1, "structid": 0.5, "malformed": 0.15, "textlayer": True, "single": 1, "batch": 0.6, "damaged": 1.5, "descriptor": 1.2, "noise": 1.5, "pool": 0.4, "randreg": 0.5, "post": 0.25,
+    em = {"names": 0.6, "longbody": 1.0, "translated": 1, "structid": 0.5, "malformed": 0.15, "textlayer": True, "single": 1, "batch": 0.6, "damaged": 1.5, "descriptor": 1.2, "noise": 1.5, "pool": 0.4, "randreg": 0.5, "post": 0.25,
           "exhaustive_single": True, "exhaustive_damage": True, "exhaustive_batch": True}
     sc.standard_run(ctx, "C02", MONITORS, sc.proj_shape, em, RULE)
 
